@@ -5,4 +5,4 @@ THEOREMS = ['foreign_delete_harmless', 'no_marker_on_foreign_event', 'no_marker_
 
 
 def run():
-    run_store('C10', THEOREMS, """Focus: kind-5 requests with 0-5 e/a tags in every order mixing own / foreign / absent / malformed targets (bad hex, two-part address, non-numeric or +-prefixed kind, upper-case hex, address with a stray identifier); oracle: every event of another author that was retrievable before the request is retrievable and unmarked after it, no marker of another author's address changes, and a request naming a foreign target is refused as a whole.""", {'reply', 'live', 'markers', 'foreign'})
+    run_store('C10', THEOREMS, """Focus: kind-5 requests with 0-5 e/a tags in every order mixing own / foreign / absent / malformed targets (bad hex, two-part address, non-numeric or +-prefixed kind, upper-case hex, address with a stray identifier); oracle: every event of another author that was retrievable before the request is retrievable and unmarked after it, no marker of another author's address changes, and a request naming a foreign target is refused as a whole.""", {'reply', 'live', 'markers', 'foreign'}, relevant={'STO', 'HAS', 'DEL', 'NAD'})
